@@ -314,8 +314,9 @@ theorem replay_eq_cache_needs_exact :
   ⟨⟨fun _ _ => true, fun v => .ok v, fun v => .ok v⟩, exE, [⟨101, .value 7 false⟩], by decide,
     fun h => absurd (h 0 1 rfl) (by decide)⟩
 
-/-- Recorded finding: a store into the cache that does not go through the funnel (`PersistentMixin.loadParameters`)
-breaks the statement — the cache changes, or leaves the error state, and no message says so. -/
+/-- A store into the cache that does not go through the funnel (as `PersistentMixin.loadParameters` and the simulated
+extra parameters did before their repair) breaks the statement — the cache changes, or leaves the error state, and no
+message says so. -/
 theorem load_parameters_fails :
     (∃ (e : Entry Nat Nat) (v : Nat), ¬ Reconstructs e.ve [⟨[], (poke e v).ve⟩]) ∧
     (∃ (e : Entry Nat Nat) (v : Nat), ¬ RecoveryAnnounced (fun s => s matches .err _) e.ve [⟨[], (poke e v).ve⟩]) :=
